@@ -122,3 +122,17 @@ def site_id(body, bi):
             n += 1
     fn = body.path
     return "%s>%s#%d" % (fn, c.split("::")[-1], n)
+
+
+def field_mut_calls(F, adt, field, grep_hint=None):
+    """all call sites (body, bb, callee) where a &mut borrow of field (adt, field) itself reaches a callee
+    as an argument (i.e. a method is invoked on that field mutably), across the three crates"""
+    import alias
+    out = []
+    hint = grep_hint or ("f|%s|" % adt)
+    for b in F.grep(hint, "|" + field):
+        og = alias.Origins(b)
+        for site in alias.field_touch(b, og, adt, field):
+            if site["kind"] == "call" and site["direct"]:
+                out.append((b, site["bb"], site["callee"]))
+    return out
